@@ -20,6 +20,12 @@ patch = os.path.join(out, 'patch.diff')
 def sh(cmd, **kw):
   return subprocess.run(cmd, shell=True, capture_output=True, text=True, **kw)
 meta = dict(property=pid, k=k, ran=[])
+_old = {}
+if os.path.exists(os.path.join(out, 'meta.json')):
+  try:
+    _old = json.load(open(os.path.join(out, 'meta.json')))
+  except Exception:
+    _old = {}
 env = 'PYTHONPATH=%s' % wt
 assert sh('git -C %s status --porcelain' % wt).stdout.strip() == '', 'worktree dirty'
 r0 = sh('%s /venv/bin/python %s/demo.py' % (env, out), timeout=900)
@@ -56,6 +62,14 @@ meta['check_counterexamples'] = [l[:300] for l in lines if l.startswith('counter
 meta['check_summary'] = [l for l in lines if l.startswith(pid + ' tier')]
 meta['check_harness_errors'] = [l[:300] for l in lines if l.startswith('HARNESS-ERROR')][:5]
 meta['detected'] = c.returncode == 1 and bool(meta['check_violation_lines'])
+hist = list(_old.get('history', []))
+if _old and not hist and 'detected' in _old:
+  hist.append(dict(detected=_old['detected'], summary=_old.get('check_summary')))
+hist.append(dict(detected=meta['detected'], summary=meta['check_summary']))
+meta['history'] = hist
+for key in ('baseline_with_change',):
+  if key not in meta and key in _old:
+    meta[key] = _old[key]
 json.dump(meta, open(os.path.join(out, 'meta.json'), 'w'), indent=1)
 print(pid, k, 'demo', meta['demo_without_change_rc'], '->', meta['demo_with_change_rc'],
       'check rc', c.returncode, 'detected', meta['detected'], meta['check_summary'])
